@@ -1,6 +1,7 @@
 // rapidcheck entry point shared by all scenario-based property drivers.
 #pragma once
 #include "driver.hpp"
+#include "deadline.hpp"
 #include <rapidcheck.h>
 
 namespace drv {
@@ -48,6 +49,7 @@ inline int run_main(int argc, char **argv, Campaign &c, const rc::Gen<Scenario> 
 		setenv("RC_PARAMS", params.c_str(), 1);
 		// rapidcheck prints its own report to stderr; keep stdout for machine-readable lines
 		bool ok = rc::check(c.prop, [&]() {
+			if (budget::over()) { budget::skipped()++; return; }
 			Scenario sc = *gen;
 			sc.variant = a.variant;
 			auto f = c.evaluate(sc);
@@ -71,6 +73,7 @@ inline int run_main(int argc, char **argv, Campaign &c, const rc::Gen<Scenario> 
 		}
 	}
 	double wall = std::chrono::duration<double>(std::chrono::steady_clock::now() - t0).count();
+	c.labels["cases_skipped_after_budget"] += budget::skipped();
 	if (!a.out.empty()) write_file(a.out, js::dump(campaign_json(c, wall, violations)));
 	return rc_exit;
 }
